@@ -238,4 +238,62 @@ def c10(tier):
     return finish('C10', tier, verdict, cov, te, wall)
 
 
-CHECKS = {'C10': c10, 'C12': c12, 'C07': c07, 'C17': c17, 'C04': c04, 'C01': c01, 'C02': c02, 'C03': c03, 'C05': c05, 'C11': c11, 'C14': c14}
+ASSUME_JOBS = [
+    'TLC 1.8 and the CommunityModules are correct',
+    'RedoJobs is a faithful reading of jobserver.rs / builder::run: bound by validating the token events of every '
+    'recorded real execution against TraceJobs, which recomputes my_tokens/cheats with the same RedoTok operators '
+    'and checks conservation after every event',
+    'event order in the trace file is a sound total order: giving events are logged before the system call, taking '
+    'events after it; one write(2) per line on an O_APPEND descriptor',
+    'small process trees (two or three levels, up to five targets) in the model; random DAGs of 4-40 targets in the real runs',
+]
+
+
+def jobs_check(pid, tier, focus, invariants, note):
+    import time
+    import jobcheck
+    import jobs
+    t0 = time.time()
+    verdict = common.Verdict(pid)
+    d = common.workdir('%s_%s_mc' % (pid, tier))
+    cov, tool = jobcheck.mc_part(tier, d, verdict, pid, invariants)
+    # anti-vacuity: with the repairs switched off in the specification TLC must find the old counterexamples
+    pinned = []
+    for sc, inv in jobs.pinned_family():
+        res, tr = jobs.run_mc(sc, d, workers=4)
+        pinned.append({'scenario': sc['name'], 'expected': inv, 'found': res.violated})
+        if res.violated != inv:
+            tool.append('anti-vacuity: scenario %s should violate %s, TLC says %s' % (sc['name'], inv, res.violated or res.error))
+    cov['pinned_counterexamples'] = pinned
+    for a in ('SelectA', 'HandleFdA', 'WaitAllA', 'EnsureA', 'P2ReleaseA', 'P2LockedA', 'ReturnA', 'HandleA'):
+        if cov['action_coverage'].get(a, 0) == 0:
+            tool.append('coverage: action %s never taken' % a)
+    real = jobcheck.real_part(tier, pid, focus, verdict)
+    cov.update(real)
+    cov['samples'] = [real.pop('sample_real')] if real.get('sample_real') else [{'note': 'no clean run'}]
+    cov.pop('sample_real', None)
+    cov['invariants'] = invariants
+    cov['exhaustive'] = True
+    cov['note'] = note
+    return finish(pid, tier, verdict, cov, tool, time.time() - t0, assumptions=ASSUME_JOBS)
+
+
+def c08(tier):
+    return jobs_check('C08', tier, 'tokens',
+                      ['Conservation', 'MaxWork', 'ExitBalanced', 'QuiescentExact', 'TokensSane', 'NoPanic'],
+                      'token pipe / cheat pipe protocol: every interleaving of the processes of small trees (own and '
+                      'inherited jobserver, world taking tokens, cheating, failing jobs, a target locked by another '
+                      'invocation); real builds under -j1..8 and under a harness-owned jobserver whose pipes are counted '
+                      'afterwards; every token event of every real run validated against the protocol')
+
+
+def c09(tier):
+    return jobs_check('C09', tier, 'sched',
+                      ['NoPanic', 'NotHung', 'AllSucceedExit0', 'TokensSane', 'ExitBalanced'],
+                      'scheduler at poll-cycle granularity: every ready set per select(), both handling orders, random '
+                      'poll order of wait_for, timers; real builds with delayed select() wake-ups (events coincide), '
+                      'duplicate targets, two invocations contending for the same targets; panic / hang / wrong exit '
+                      'status of any real command is a violation')
+
+
+CHECKS = {'C08': c08, 'C09': c09, 'C10': c10, 'C12': c12, 'C07': c07, 'C17': c17, 'C04': c04, 'C01': c01, 'C02': c02, 'C03': c03, 'C05': c05, 'C11': c11, 'C14': c14}
